@@ -37,7 +37,7 @@ def _field_sites(b, op, field):
 def rule_a(ctx):
     P = ctx.prog
     from . import inventory, mustpass
-    inventory.check(ctx, ["mailbox-push", "mailbox-pop", "mailbox-close", "file:mailbox-queue"])
+    inventory.check(ctx, ["mailbox-push", "mailbox-pop", "mailbox-close", "mailbox-address", "file:mailbox-queue"])
     mustpass.check(ctx, ["send-completes-after-wait", "send-ok-notifies-receiver", "recv-notifies-sender"])
     K.check_floors(ctx, "C12")
     push = ctx.body(Q + "push")
